@@ -5,7 +5,8 @@
 (*              stamps of its Invoke and Return events (one atomic         *)
 (*              counter inside the harness) and what the server answered;  *)
 (*   final    = what was observed after the last return (store, schemas,   *)
-(*              jobs, liveness).                                            *)
+(*              jobs, liveness);                                            *)
+(*   comps    = the objects of the server state it is to be validated for. *)
 (* Invoke and Return consume events; the effect step of ServerConc.tla is  *)
 (* silent and may be placed anywhere between them: TLC searches for the    *)
 (* linearisation.  A history is accepted when a state is reached in which  *)
@@ -62,7 +63,7 @@ ToEls(rows) == [i \in DOMAIN rows |-> ToEl(rows[i])]
 HasElems(op) == op \in WriteOps \cup {"AddSchema"}
 ToCall(c) == IF HasElems(c.op) THEN [op |-> c.op, g |-> c.g, elems |-> ToEls(c.elems)] ELSE c
 
-TInit == /\ tr \in 1..Len(Traces) /\ comp \in Comps
+TInit == /\ tr \in 1..Len(Traces) /\ comp \in Comps \cap {Traces[tr].comps[k] : k \in DOMAIN Traces[tr].comps}
          /\ store = InitStore /\ schemas = <<>> /\ jobs = <<>> /\ up = TRUE
          /\ sess = <<>> /\ res = <<>> /\ lin = <<>>
          /\ ph = [c \in 1..Len(Traces[tr].cl) |-> "idle"]
